@@ -61,13 +61,13 @@ func (c *Client) Get(ctx context.Context, key client.ObjectKey, obj client.Objec
 	t := TaskFrom(ctx)
 	if call != nil && call.res.fault == FErrBefore {
 		err := injectedErr(call, gvk)
-		t.Reads = append(t.Reads, ReadRec{Verb: "get", Kind: gvk.Kind, Key: key.String(), Err: err, Step: s.step, At: s.Now()})
+		t.Reads = append(t.Reads, ReadRec{Verb: "get", Kind: gvk.Kind, Key: key.String(), Err: err, Step: s.step, At: s.Now(), EvSeq: s.store.evSeq})
 		s.Leave(call)
 		return err
 	}
 	o := s.cache.Get(gvk, key)
 	if t != nil {
-		rr := ReadRec{Verb: "get", Kind: gvk.Kind, Key: key.String(), Step: s.step, At: s.Now()}
+		rr := ReadRec{Verb: "get", Kind: gvk.Kind, Key: key.String(), Step: s.step, At: s.Now(), EvSeq: s.store.evSeq}
 		if o != nil {
 			rr.Objs = []interface{}{o}
 		}
@@ -105,7 +105,7 @@ func (c *Client) List(ctx context.Context, list client.ObjectList, opts ...clien
 	t := TaskFrom(ctx)
 	if call != nil && call.res.fault == FErrBefore {
 		err := injectedErr(call, gvk)
-		t.Reads = append(t.Reads, ReadRec{Verb: "list", Kind: gvk.Kind, Key: desc, Err: err, Step: s.step, At: s.Now()})
+		t.Reads = append(t.Reads, ReadRec{Verb: "list", Kind: gvk.Kind, Key: desc, Err: err, Step: s.step, At: s.Now(), EvSeq: s.store.evSeq})
 		s.Leave(call)
 		return err
 	}
@@ -123,7 +123,7 @@ func (c *Client) List(ctx context.Context, list client.ObjectList, opts ...clien
 		}
 	}
 	if t != nil {
-		t.Reads = append(t.Reads, ReadRec{Verb: "list", Kind: gvk.Kind, Key: desc, Objs: snaps, Step: s.step, At: s.Now()})
+		t.Reads = append(t.Reads, ReadRec{Verb: "list", Kind: gvk.Kind, Key: desc, Objs: snaps, Step: s.step, At: s.Now(), EvSeq: s.store.evSeq})
 	}
 	if err := setList(list, items); err != nil {
 		s.Leave(call)
